@@ -161,3 +161,22 @@ Definition eq_sym_known (a b : ty) : bool :=
   | TStr, TArr | TArr, TStr | TStr, TObj | TObj, TStr | TStr, TCls | TCls, TStr => true
   | _, _ => false
   end.
+
+(* ---- (int) and (float) on scalars (docs/data-types.md "显式转换": (int)"42" = 42, (int)"42.5" = 42
+   truncated, (int)"hello" = 0, (float)"3.14" = 3.14, (float)"42" = 42.0): numbers convert, a
+   numeric string converts through its value, anything that is not a number gives 0, true is 1 *)
+Definition ref_cast (lib : golib) (c : castop) (v : value) : outcome :=
+  let num : option float :=
+    match v with
+    | VNull => Some 0%float | VBool b => Some (if b then 1 else 0)%float
+    | VInt z => Some (Z2f z) | VFloat f => Some f
+    | VStr s => match parse_float lib s with Some f => Some f | None => Some 0%float end
+    | _ => None
+    end in
+  match c, v with
+  | CastInt, VInt z => Val (VInt z)
+  | CastInt, VBool b => Val (VInt (if b then 1 else 0))
+  | CastInt, VNull => Val (VInt 0)
+  | CastInt, _ => match num with Some f => Val (VInt (f2i f)) | None => Throw end
+  | CastFloat, _ => match num with Some f => Val (VFloat f) | None => Throw end
+  end.
